@@ -191,6 +191,9 @@ def run(tier, seed, replay):
     chk.run_contract(E2, ud)
     for c in [SR.block_start(), SR.block_end()] + SR.simple_primaries():
         chk.run_contract(E2, c)
+    fd, cff = SR.func_declaration()
+    E2.contracts[cff.key] = cff
+    chk.run_contract(E2, fd)
     finite_frame(chk)
 
     cases, fails, dt = search()
